@@ -561,15 +561,22 @@ fn run_task_inner(plan: &Plan, case: &Case, cfg: &Cfg, st: &mut Stats, fails: &m
         // except that C07 wants to see what the library says about it
         st.skipped_invalid += 1;
         if plan.oracles & O_TOTAL != 0 {
-            let (o, dt) = run_format(&case.text, cfg, 120, None);
-            st.transitions += 1;
-            st.slowest_us = st.slowest_us.max(dt.as_micros());
+            // without a range, and with an ordinary, an inverted, an empty, an out-of-bounds and two one-sided ranges: the answer
+            // for text that does not parse is a parse error, whatever the range says
+            let n = case.text.len();
+            let ranges: [Option<(Option<usize>, Option<usize>)>; 7] =
+                [None, Some((Some(0), Some(n))), Some((Some(10), Some(2))), Some((Some(0), Some(0))), Some((Some(n + 10), Some(n + 20))), Some((Some(1), None)), Some((None, Some(1)))];
             let mut seen = HashMap::new();
-            match o {
-                Out::ParseErr => st.parse_err_outcomes += 1,
-                Out::Ok(s) => record(fails, &mut seen, "false-success", case, cfg, 120, None, "library returned Ok for text the parser rejects".into(), &s),
-                Out::OtherErr(e) => record(fails, &mut seen, "wrong-error", case, cfg, 120, None, e, ""),
-                Out::Panic(m) => record(fails, &mut seen, "panic", case, cfg, 120, None, m, ""),
+            for range in ranges {
+                let (o, dt) = run_format(&case.text, cfg, 120, range);
+                st.transitions += 1;
+                st.slowest_us = st.slowest_us.max(dt.as_micros());
+                match o {
+                    Out::ParseErr => st.parse_err_outcomes += 1,
+                    Out::Ok(s) => record(fails, &mut seen, "false-success", case, cfg, 120, range, "library returned Ok for text the parser rejects".into(), &s),
+                    Out::OtherErr(e) => record(fails, &mut seen, "wrong-error", case, cfg, 120, range, e, ""),
+                    Out::Panic(m) => record(fails, &mut seen, "panic", case, cfg, 120, range, m, ""),
+                }
             }
         }
         return;
